@@ -29,6 +29,7 @@ FIELDS = {
     "rename_all_kebab": ["alpha_one", "beta_two", "delta"], "rename_all_upper": ["alpha_one", "beta_two", "delta"],
     "digit": ["alpha", "beta_gamma", "delta"], "quote": ["alpha", "beta_gamma", "delta"], "single_letter": ["a", "b", "c"],
     "kw_dashed": ["default", "beta_gamma", "protocol"], "kebab_kw": ["default", "alpha_one", "case"],
+    "unicode": ["alpha", "beta_gamma", "delta"],
 }
 VARIANTS = {
     "plain": ["Alpha", "BetaGamma", "Delta"], "kw_swift": ["default", "case", "protocol"], "kw_py": ["from", "def", "pass"],
@@ -36,8 +37,11 @@ VARIANTS = {
     "rename_all_kebab": ["AlphaOne", "BetaTwo", "Delta"], "rename_all_upper": ["AlphaOne", "BetaTwo", "Delta"],
     "digit": ["Alpha", "BetaGamma", "Delta"], "quote": ["Alpha", "BetaGamma", "Delta"], "single_letter": ["A", "B", "C"],
     "kw_dashed": ["default", "BetaGamma", "protocol"], "kebab_kw": ["default", "AlphaOne", "case"],
+    "unicode": ["Alpha", "BetaGamma", "Delta"],
 }
-RENAMES = {"dashed": ["alpha-one", "beta-two", "x-y-z"], "kw_dashed": [None, "beta-two", None], "digit": ["1st", "2nd", "3rd"], "quote": ['al"pha', "be'ta", 'de"l"ta']}
+RENAMES = {"dashed": ["alpha-one", "beta-two", "x-y-z"], "kw_dashed": [None, "beta-two", None], "digit": ["1st", "2nd", "3rd"], "quote": ['al"pha', "be'ta", 'de"l"ta'],
+           # wire names with a combining mark, an emoji + variation selector, a zero-width joiner (printable text is not all there is)
+           "unicode": ["nai\u0308ve", "love-\u2764\ufe0f", "x\u200dy\u00e9"]}
 OVERRIDE = ('#[typeshare(swift(type = "Int"), typescript(type = "any | undefined"), kotlin(type = "Int"), go(type = "uint"), '
             'scala(type = "Short"), python(type = "int"))]')
 DECO = {"none": "#[typeshare]", "swift_deco": '#[typeshare(swift = "Equatable")]', "swift_decos2": '#[typeshare(swift = "Equatable, Hashable", kotlin = "Serializable", swift = "Sendable")]',
@@ -95,7 +99,7 @@ def member_type(c, i, generic):
 
 def rename_attr(c, i, variant=False):
     r = RENAMES.get(c["naming"])
-    if not r or (c["naming"] in ("digit", "quote") and not variant):      # promised for variants only
+    if not r or (c["naming"] in ("digit", "quote", "unicode") and not variant):      # promised for variants only
         return []
     if r[i] is None:
         return []
@@ -173,9 +177,21 @@ def event_for(lang, text):
     """generated text -> event for Trace_C10 (python: without the CPython verdicts, filled in by the caller)"""
     try:
         toks = tokclass.classes(lang, text) if lang != "python" else [t for k, t, _ in base.lex(text, "py") if k == "punct" and t in "()[]{}"]
-        return {"lang": lang, "lex_ok": True, "tokens": toks}
+        return {"lang": lang, "lex_ok": True, "tokens": toks, "strs": escaped_strings(lang, text)}
     except base.LexError as e:
-        return {"lang": lang, "lex_ok": False, "tokens": [], "lex_error": str(e)}
+        return {"lang": lang, "lex_ok": False, "tokens": [], "strs": [], "lex_error": str(e)}
+
+
+def escaped_strings(lang, text):
+    """bodies (as character lists, non-ASCII -> "x") of the non-raw string literals that contain a backslash: StringLit!AllOk"""
+    if lang == "python":
+        return []          # CPython is the judge of Python files
+    out, seen = [], set()
+    for k, t, _ in base.lex(text, tokclass.EXT[lang]):
+        if k == "str" and "\\" in t and not t.startswith("`") and t not in seen:
+            seen.add(t)
+            out.append([ch if ord(ch) < 128 else "x" for ch in t[1:-1]])
+    return out
 
 
 def load_python(paths):
@@ -195,9 +211,20 @@ def classify(ev, pyrec=None):
         if not ev["cpython_parses"]:
             return "cpython-syntax-error"
         return "cpython-load-error" if not ev["cpython_loads"] else "?"
+    if bad_escape(ev):
+        return "string-escape"
     if base_balance(ev["tokens"]):
         return "unbalanced-delimiters"
     return "declaration-grammar"
+
+
+def bad_escape(ev):
+    """naming only (the verdict is StringLit!AllOk in TLC): does some literal contain a backslash sequence of a foreign shape?"""
+    import re
+    pat = {"kotlin": r"\\(?:[tbnr'\"\\$]|u[0-9a-fA-F]{4})", "scala": r"\\(?:[btnfr\"'\\0-7]|u[0-9a-fA-F]{4})",
+           "go": r"\\(?:[abfnrtv\\\"]|x[0-9a-fA-F]{2}|u[0-9a-fA-F]{4}|U[0-9a-fA-F]{8}|[0-7]{3})",
+           "swift": r"\\(?:[0\\tnr\"'(]|u\{[0-9a-fA-F]{1,8}\})", "typescript": r"\\(?:x[0-9a-fA-F]{2}|u[0-9a-fA-F]{4}|u\{[0-9a-fA-F]{1,6}\}|[^xu])"}[ev["lang"]]
+    return any("\\" in re.sub(pat, "", "".join(s)) for s in ev.get("strs", []))
 
 
 def base_balance(tokens):
